@@ -24,6 +24,24 @@ const (
 )
 
 func init() {
+	mutant(&Mutant{Name: "c01-string-key-becomes-any-number", Property: "C01", File: "js/js.go",
+		Old: "isNum && isCanonicalNumber(lit.Data[1:len(lit.Data)-1]) {", New: "isNum {",
+		Rule: "R01.30", Construct: "only for canonical numeric strings"})
+	mutant(&Mutant{Name: "c01-string-key-after-integer-gets-one-dot", Property: "C01", File: "js/js.go",
+		Old: "\t\t\t\t\tif m.prevIsInteger() {\n\t\t\t\t\t\t// prevent previous integer\n\t\t\t\t\t\tm.write(dotBytes)\n\t\t\t\t\t}\n", New: "",
+		Rule: "R01.29", Construct: "string key written as a name#1 behind the trailing-digit test"})
+	mutant(&Mutant{Name: "c01-optional-calls-merged", Property: "C01", File: "js/util.go",
+		Old: "isCallX && isCallY && !callX.Optional && !callY.Optional && ", New: "isCallX && isCallY && !callX.Optional && ",
+		Rule: "R01.31", Construct: "only for plain calls"})
+	mutant(&Mutant{Name: "c01-proto-shorthand", Property: "C01", File: "js/js.go",
+		Old: " || bytes.Equal(v.Name(), protoBytes)) {", New: ") {",
+		Rule: "R01.32", Construct: "shorthand excludes __proto__"})
+	mutant(&Mutant{Name: "c01-underflowing-literal-truthy", Property: "C01", File: "js/util.go",
+		Old: "\t\t\t\t\tif !hasPrefix && (bytes.Contains(d, []byte(\"e-\")) || bytes.Contains(d, []byte(\"E-\"))) {\n\t\t\t\t\t\treturn false, false // may underflow to zero\n\t\t\t\t\t}\n", New: "",
+		Rule: "R01.33", Construct: "only without a negative exponent"})
+	mutant(&Mutant{Name: "c01-static-numeric-field-joined", Property: "C01", File: "js/js.go",
+		Old: "item.Name.Literal.TokenType != js.StringToken && item.Name.Literal.TokenType != js.PrivateIdentifierToken {", New: "item.Name.Literal.TokenType == js.IdentifierToken {",
+		Rule: "R01.34", Construct: "name is separated from the keyword"})
 	register(&Property{
 		ID:    "C01",
 		Level: "other",
@@ -76,6 +94,12 @@ func runC01(c *Ctx) {
 	// a hoisted `var` whose name collides with a lexical binding of an intermediate block is an early error: the
 	// script no longer loads (same rule as R02.5)
 	c.alsoUnder(map[string]string{"R02.5": "R01.23"}, nil, func() { c.r025(pk) })
+	c.alsoUnder(map[string]string{"R09.4": "R01.29"}, nil, func() { c.r094(pk) })
+	c.r0130(pk)
+	c.r0131(pk)
+	c.r0132(pk)
+	c.r0133(pk)
+	c.alsoUnder(map[string]string{"R09.21": "R01.34"}, nil, func() { c.r0921(pk) })
 }
 
 // R01.13: traversals of binding patterns reach every nested binding.
